@@ -100,7 +100,11 @@ Read(k) ==                                       \* a fresh process compiles the
   /\ LET r == Deserialize(k) IN
      /\ reads' = Append(reads, [key |-> k, res |-> r])
      /\ Log([a |-> "read", key |-> k, res |-> r])
-     /\ dir' = IF r = "stale" THEN Drop(dir, Final(k)) ELSE dir
+     \* a stale entry is deleted; on a miss (or after the deletion) the reader compiles afresh and adds
+     \* a complete current entry itself (the reader is not crashed in this model)
+     /\ dir' = IF r \in {"stale", "miss"}
+              THEN Put(dir, Final(k), [kind |-> "final", key |-> k, written |-> N, ver |-> "cur", synced |-> TRUE])
+              ELSE dir
   /\ UNCHANGED <<wpc, wtmp, crashes>>
 
 Next == \/ \E w \in Writers : CreateTemp(w) \/ WriteChunk(w) \/ Sync(w) \/ CloseFile(w) \/ Rename(w) \/ Crash(w)
@@ -119,6 +123,10 @@ TempNamesDistinct == \A a, b \in Writers : (a # b /\ wtmp[a] # "" /\ wtmp[b] # "
 FinalHasRightKey == \A k \in Keys : Final(k) \in Names => dir[Final(k)].key = k
 
 Quiet == \A w \in Writers : wpc[w] \in {"done", "dead"}
-Emit == (Quiet /\ Len(reads) = 1) => PrintT(<<"EMIT", ToJson([hist |-> hist])>>)
+FinalState(k) == IF Final(k) \notin Names THEN "absent"
+                 ELSE IF dir[Final(k)].ver # "cur" THEN "stale"
+                 ELSE IF dir[Final(k)].written = N THEN "complete" ELSE "partial"
+Emit == (Quiet /\ Len(reads) = 1) =>
+          PrintT(<<"EMIT", ToJson([hist |-> hist, final |-> [k \in Keys |-> FinalState(k)]])>>)
 DesignView == <<dir, wpc, wtmp, crashes, reads>>
 =============================================================================
